@@ -3,22 +3,7 @@
 package stdlib
 
 // Contracts for govc (see /verif/DESIGN.md). Comment-only file.
-//
-// app(stage, ctx) is the string a compiled stage yields for a context. Stages are treated as
-// (deterministic, total) functions of the context: that is the inductive hypothesis of C08/C10.
-
-//@ smt
-//@ (declare-fun app (Int Int) Str)
-//@ end
-
-// A compiled stage is never nil (the compiler only ever produces closures).
-//@ nonnil rare/pkg/expressions.KeyBuilderStage
-//@ nonnil rare/pkg/expressions.KeyBuilderContext
-
-//@ functype rare/pkg/expressions.KeyBuilderStage
-//@   params (this, ctx)
-//@   pure
-//@   ensures result == app(this, ctx)
+// (app(stage, ctx), the stage functype and the non-nil declarations live in pkg/expressions.)
 
 // C11: bucket(v, s) is the multiple b of s with b <= v < b + s  (i.e. floor(v/s)*s; '/' below is
 // mathematical floor division), whenever that b is representable.
